@@ -210,21 +210,27 @@ static void seq_step(const pkcfg *c, uint8_t *mem, size_t membytes, uint32_t *le
     long ret = 0, ret2 = 0;
     uint32_t oldlen = *len;
     int f = 0;
+    /* the ...Bytes variants derive the element count from a storage size:
+     * usable whenever the smallest storage of `len` elements holds exactly
+     * `len` whole elements; every other step goes through them */
+    static unsigned long stepno;
+    size_t lb = ((size_t)*len * (size_t)c->bits + 7) / 8;
+    int viab = (++stepno % 2) && (lb * 8) / (size_t)c->bits == *len && !strstr(c->variant, "max");
     if (!strcmp(op, "InsertSorted")) {
         if (*len >= SEQCAP - 1) {
             return;
         }
-        f = GUARDED(c->insert_sorted(mem, *len, v));
+        f = viab ? GUARDED(c->insert_sorted_b(mem, lb, v)) : GUARDED(c->insert_sorted(mem, *len, v));
         (*len)++;
     } else if (!strcmp(op, "DeleteMember")) {
         int r = 0;
-        f = GUARDED(r = c->delete_member(mem, *len, v));
+        f = viab ? GUARDED(r = c->delete_member_b(mem, lb, v)) : GUARDED(r = c->delete_member(mem, *len, v));
         ret = r;
         if (r && *len > 0) {
             (*len)--; /* a "deleted" report on an empty array is logged, the length stays 0 */
         }
     } else if (!strcmp(op, "Member")) {
-        f = GUARDED(ret = c->member(mem, *len, v));
+        f = viab ? GUARDED(ret = c->member_b(mem, lb, v)) : GUARDED(ret = c->member(mem, *len, v));
         uint32_t b = 0;
         int f2 = f ? 0 : GUARDED(b = c->bsearch(mem, *len, v));
         f = f ? f : f2;
@@ -233,13 +239,13 @@ static void seq_step(const pkcfg *c, uint8_t *mem, size_t membytes, uint32_t *le
         if (*len >= SEQCAP - 1 || a > *len) {
             return;
         }
-        f = GUARDED(c->insert(mem, *len, (uint32_t)a, v));
+        f = viab ? GUARDED(c->insert_b(mem, lb, (uint32_t)a, v)) : GUARDED(c->insert(mem, *len, (uint32_t)a, v));
         (*len)++;
     } else if (!strcmp(op, "DeleteAt")) {
         if (*len == 0 || a >= *len) {
             return;
         }
-        f = GUARDED(c->del(mem, *len, (uint32_t)a));
+        f = viab ? GUARDED(c->del_b(mem, lb, (uint32_t)a)) : GUARDED(c->del(mem, *len, (uint32_t)a));
         (*len)--;
     }
     head("PkSeq", c, op, "seq");
